@@ -4,12 +4,13 @@ MCZoneKinds == {"signed", "signed-same", "insecure", "optout", "nsec3"}
 MCQKinds == {"a", "cname", "wild", "nodata", "nx", "dname"}
 SigBreak == {"data", "sigbytes", "signer", "expired"}
 KindsAt(pos) ==
-  CASE pos = "referral" -> SigBreak \cup {"strip", "dropds", "swapds", "dropproof", "foreignproof"}
+  CASE pos = "rootref"  -> SigBreak \cup {"strip", "dropds", "swapds"}
+    [] pos = "referral" -> SigBreak \cup {"strip", "dropds", "swapds", "dropproof", "foreignproof"}
     [] pos = "dnskey"   -> SigBreak \cup {"strip", "clonetag", "roguekey"}
-    [] pos = "answer"   -> SigBreak \cup {"labels", "notyet", "strip", "dropproof", "foreignproof", "inject", "roguesig"}
+    [] pos = "answer"   -> SigBreak \cup {"labels", "notyet", "strip", "dropproof", "foreignproof", "inject", "roguesig", "fakedname"}
 Untouched == [pos \in Positions |-> "none"]
 Single == {[Untouched EXCEPT ![pos] = k] : pos \in Positions, k \in SigBreak \cup {"strip", "dropds", "swapds", "dropproof",
-              "foreignproof", "clonetag", "labels", "notyet", "inject", "roguekey", "roguesig"}}
+              "foreignproof", "clonetag", "labels", "notyet", "inject", "roguekey", "roguesig", "fakedname"}}
 SingleOK == {t \in Single : \A pos \in Positions : t[pos] = "none" \/ t[pos] \in KindsAt(pos)}
 MCTampers == {Untouched} \cup SingleOK
 \* pairs: one tampering at each of two different positions
